@@ -44,6 +44,7 @@ FIELDS = [
     ([[RELS[12]], [RELS[0]]], True, ()),
     ([[RELS[0]]], False, ("misc:Depends",)),
     ([[RELS[2]], [RELS[10]]], False, ("shlibs:Depends", "misc:Depends")),
+    ([[RELS[0]]], True, ("python3:any:Depends", "plain")),
     ([], False, ()),
 ]
 STYLES = ["tight", "canonical", "loose", "newlines", "tabs", "wrapped"]
